@@ -555,3 +555,171 @@ run_bizda_before(int y0, int y1, int only_rd, int only_f)
 		}
 	}
 }
+
+/* ---- stdin: TWO input formats that share their first literal (fourth wave) ----
+ * ordered pairs (A, B) of a small set of formats with the same first separator; lines = the text of every day
+ * of 2000 (every boundary second for times) printed with A and with B, alone and embedded; expected = what the
+ * argument mode does: the first of the two formats the library accepts the text under. */
+static const char *const sp_date[] = {"%d-%m-%Y", "%Y-%m-%d", "%m-%d-%Y", "%Y-%j", "%j-%Y", "%d/%m/%Y", "%Y/%m/%d", "%m/%d/%Y", "%d %m %Y", "%Y %m %d",
+	"%d %b %Y", "%b %d %Y", "%d.%m.%Y", "%Y.%m.%d"};
+static const char *const sp_time[] = {"%H:%M:%S", "%H:%M", "%I:%M:%S %p", "%M:%S.%N"};
+#define NSPD	14
+#define NSPT	4
+static int
+sp_first_lit(const char *f)
+{
+	for (; *f; f++) {
+		if (*f == '%') {
+			f++;
+			while (*f == '-' || *f == '_' || *f == 'O' || *f == '0' || *f == ' ') {
+				f++;
+			}
+		} else {
+			return (unsigned char)*f;
+		}
+	}
+	return 0;
+}
+static int
+sp_npairs(void)
+{
+	return NSPD * NSPD + NSPT * NSPT;
+}
+static void
+run_stdin_pair(int k, int only_v, int only_shape)
+{
+	EX_CTR(c_sb, "stdin_pair_invocations");
+	EX_CTR(c_sbl, "stdin_pair_lines");
+	EX_CTR(c_sbj, "stdin_pair_lines_judged");
+	const char *rundir = getenv("VERIF_RUNDIR");
+	int timep = k >= NSPD * NSPD, kk = timep ? k - NSPD * NSPD : k, n = timep ? NSPT : NSPD;
+	const char *const *set = timep ? sp_time : sp_date;
+	const char *fa = set[kk / n], *fb = set[kk % n];
+	const char *ofmt = timep ? "%T" : "%F";
+	static char texts[2200][64], exps[2200][40];
+	static int ok[2200];
+	char fin[600], fout[600], ferr[600], cmd[2800], key[320], cas[96], rej[256] = "", out[256], src[64];
+	FILE *fi, *fo, *fe;
+	int nv = 0, have_rej = 0;
+
+	if (rundir == NULL || ex.tree == NULL || kk / n == kk % n || sp_first_lit(fa) != sp_first_lit(fb)) {
+		return;
+	}
+	++*c_sb;
+	{
+		char bt[32];
+		snprintf(bt, sizeof(bt), "%04d-01-01T00:00:00", W8[0].y0);
+		dt_set_base(dt_strpdt(bt, NULL, NULL));
+	}
+	for (int which = 0; which < 2; which++) {
+		const char *pf = which ? fb : fa;
+		int cnt = timep ? 24 * 5 * 3 : 366;
+		for (int i = 0; i < cnt && nv < 2200; i++) {
+			struct dt_dt_s v, v2;
+			size_t l;
+			if (timep) {
+				static const int ms[] = {0, 1, 9, 10, 59}, ss[] = {0, 1, 59};
+				int sec = (i / 15) * 3600 + ms[i / 3 % 5] * 60 + ss[i % 3];
+				snprintf(src, sizeof(src), "%02d:%02d:%02d", sec / 3600, sec / 60 % 60, sec % 60);
+			} else {
+				const struct rc_day *p = rc_get(rc_yearstart[2000] + i);
+				snprintf(src, sizeof(src), "%04d-%02d-%02d", p->y, p->m, p->d);
+			}
+			v = dt_strpdt(src, NULL, NULL);
+			l = dt_strfdt(texts[nv], sizeof(texts[nv]) - 1, pf, v);
+			if (l == 0 || l >= sizeof(texts[nv]) - 1) {
+				continue;
+			}
+			texts[nv][l] = '\0';
+			/* argument mode: the formats in the order given */
+			v2 = dt_strpdt(texts[nv], fa, NULL);
+			if (dt_unk_p(v2)) {
+				v2 = dt_strpdt(texts[nv], fb, NULL);
+			}
+			ok[nv] = !dt_unk_p(v2);
+			/* only texts that can be read one way: the format that did not print the text refuses it from every
+			 * offset (13-01-2000 under %m-%d-%Y reads as 3-01-2000 from offset 1, the search is free to find that) */
+			for (const char *t = texts[nv]; ok[nv] && *t; t++) {
+				if (!dt_unk_p(dt_strpdt(t, which ? fa : fb, NULL))) {
+					ok[nv] = 0;
+				}
+			}
+			/* only texts that can be read one way: the format that did not print the text refuses it from every
+			 * offset (13-01-2000 under %m-%d-%Y reads as 3-01-2000 from offset 1, the search is free to find that) */
+			for (const char *t = texts[nv]; ok[nv] && *t; t++) {
+				if (!dt_unk_p(dt_strpdt(t, which ? fa : fb, NULL))) {
+					ok[nv] = 0;
+				}
+			}
+			exps[nv][0] = '\0';
+			if (ok[nv]) {
+				dt_strfdt(exps[nv], sizeof(exps[nv]), ofmt, v2);
+			}
+			nv++;
+		}
+	}
+	snprintf(fin, sizeof(fin), "%s/c09p.%d.in", rundir, k);
+	snprintf(fout, sizeof(fout), "%s/c09p.%d.out", rundir, k);
+	snprintf(ferr, sizeof(ferr), "%s/c09p.%d.err", rundir, k);
+	if ((fi = fopen(fin, "w")) == NULL) {
+		return;
+	}
+	for (int v = 0; v < nv; v++) {
+		fprintf(fi, "%s\nfoo %s bar\n", texts[v], texts[v]);
+	}
+	fclose(fi);
+	snprintf(cmd, sizeof(cmd), "LOCALE_FILE='%s/data/locale' '%s/src/dconv' --base %04d-01-01 -i '%s' -i '%s' -f '%s' < '%s' > '%s' 2> '%s'", ex.tree, ex.tree,
+		 W8[0].y0, fa, fb, ofmt, fin, fout, ferr);
+	if (system(cmd) != 0) {
+		;
+	}
+	fo = fopen(fout, "r");
+	fe = fopen(ferr, "r");
+	if (fo == NULL || fe == NULL) {
+		return;
+	}
+	SX_NEXT_REJ();
+	for (int v = 0; v < nv; v++) {
+		for (int shape = 0; shape < 2; shape++) {
+			char line[160];
+			int rejected = 0;
+			snprintf(line, sizeof(line), shape ? "foo %s bar" : "%s", texts[v]);
+			++*c_sbl;
+			if (have_rej && !strcmp(rej, line)) {
+				rejected = 1;
+				SX_NEXT_REJ();
+			} else {
+				out[0] = '\0';
+				if (fgets(out, sizeof(out), fo)) {
+					out[strcspn(out, "\n")] = '\0';
+				} else {
+					rejected = 2;
+				}
+			}
+			if (!ok[v] || (only_v >= 0 && (v != only_v || shape != only_shape))) {
+				continue;
+			}
+			++*c_sbj;
+			if (rejected || strcmp(out, exps[v])) {
+				snprintf(key, sizeof(key), "stdin-binding two formats sharing the separator '%c', text of the %s one, line=%s: %s", sp_first_lit(fa),
+					 v < nv / 2 ? "first" : "second", shape ? "embedded (foo <text> bar)" : "text alone",
+					 rejected == 1 ? "line is refused" : rejected == 2 ? "line is neither converted nor refused" : "line is converted to a different value");
+				snprintf(cas, sizeof(cas), "P %d %d %d", k, v, shape);
+				snprintf(cmd, sizeof(cmd), "echo '%s' | dconv -i '%s' -i '%s' -f '%s'", line, fa, fb, ofmt);
+				ex_viol(key, (double)k, cas, cmd, "-i '%s' -i '%s': the line '%s' on stdin gives '%s'%s; the same text as an argument reads as %s", fa, fb, line,
+					rejected ? "" : out, rejected == 1 ? " (cannot make sense of)" : rejected == 2 ? " (nothing)" : "", exps[v]);
+				if (replay_verbose) {
+					printf("  VIOLATION [%s] -i '%s' -i '%s' line '%s' gives '%s'%s, expected %s\n", key, fa, fb, line, rejected ? "" : out, rejected ? " (refused)" : "", exps[v]);
+					replay_fails++;
+				}
+			} else if (replay_verbose) {
+				printf("  -i '%s' -i '%s' line '%s' gives '%s'\n", fa, fb, line, out);
+			}
+		}
+	}
+	fclose(fo);
+	fclose(fe);
+	unlink(fin);
+	unlink(fout);
+	unlink(ferr);
+}
